@@ -434,9 +434,81 @@ func definitelyNonNilErr(v ssa.Value) bool {
 		}
 	case *ssa.UnOp:
 		if x.Op == token.MUL {
-			if g, ok := x.X.(*ssa.Global); ok && strings.HasPrefix(g.Name(), "Err") {
+			if g, ok := x.X.(*ssa.Global); ok && (strings.HasPrefix(g.Name(), "Err") || sentinelErr(g)) {
 				return true
 			}
+		}
+	}
+	return false
+}
+
+var sentinelCache = map[*ssa.Global]bool{}
+
+// sentinelErr: a package-level error variable that the package initialiser
+// sets to errors.New/fmt.Errorf(...) and that no other function assigns.
+func sentinelErr(g *ssa.Global) bool {
+	if v, ok := sentinelCache[g]; ok {
+		return v
+	}
+	res := false
+	if pt, ok := g.Type().(*types.Pointer); ok && isErrorType(pt.Elem()) && g.Pkg != nil {
+		if init := g.Pkg.Func("init"); init != nil {
+			for _, b := range init.Blocks {
+				for _, ins := range b.Instrs {
+					if st, ok := ins.(*ssa.Store); ok && st.Addr == g {
+						res = definitelyNonNilErr(st.Val)
+					}
+				}
+			}
+		}
+		if res {
+			if refs := g.Referrers(); refs != nil {
+				for _, r := range *refs {
+					if st, ok := r.(*ssa.Store); ok && st.Addr == g && st.Parent().Name() != "init" {
+						res = false
+					}
+				}
+			}
+		}
+	}
+	sentinelCache[g] = res
+	return res
+}
+
+// MayReturnFalseNil: fn (bool, error)-style can answer (false, nil) - then a
+// caller that only looks at the error accepts a rejected input. Interface and
+// external callees are assumed able to (e.g. VerifyECDSA does).
+func MayReturnFalseNil(fn *ssa.Function, depth int) bool {
+	if fn == nil || len(fn.Blocks) == 0 || depth > 4 {
+		return true
+	}
+	vs := sigOf(fn.Signature)
+	if vs.boolIdx < 0 || vs.errIdx < 0 {
+		return false
+	}
+	for _, ret := range Returns(fn) {
+		bv, ev := ret.Results[vs.boolIdx], ret.Results[vs.errIdx]
+		// both propagated from one call
+		if be, ok := Resolve(bv).(*ssa.Extract); ok {
+			if ee, ok := Resolve(ev).(*ssa.Extract); ok && ee.Tuple == be.Tuple {
+				if call, ok := be.Tuple.(*ssa.Call); ok {
+					if MayReturnFalseNil(call.Call.StaticCallee(), depth+1) {
+						return true
+					}
+					continue
+				}
+			}
+		}
+		bFalse := true
+		if b, ok := ConstBool(Strip(bv)); ok && b {
+			bFalse = false
+		}
+		eNil := true
+		if !IsNilConst(ev) && (definitelyNonNilErr(ev) || definitelyNonNilErr(Resolve(ev)) || knownNonNil(ev, ret.Block())) {
+			eNil = false
+		}
+		if bFalse && eNil {
+			return true
 		}
 	}
 	return false
